@@ -298,6 +298,15 @@ func (c *columnKey) Apply(chunk commit.Chunk, r *commit.Reader) {
 		case commit.Put:
 			value := string(r.Bytes())
 
+			// If the row is being re-keyed, the previous key must not resolve anymore
+			if fill.Contains(uint32(offset)) && data[offset] != value {
+				c.lock.Lock()
+				if at, ok := c.seek[data[offset]]; ok && at == uint32(r.Offset) {
+					delete(c.seek, data[offset])
+				}
+				c.lock.Unlock()
+			}
+
 			fill[offset>>6] |= 1 << (offset & 0x3f)
 			data[offset] = value
 			c.lock.Lock()
